@@ -172,6 +172,14 @@ def run(chk):
     ops = rops + ["ifnaddr 0 scale", "inamed 0 scale 4", "ifnaddr 0 scale", "ifnaddr 1 ident", "inamed 1 ident 1", "inamed 2 ident 1"] + ops
     # the by-name ops share per-instance caches: keep them in one sequential chunk (the engine is stateless otherwise)
     res = core.differential(chk, ops, binp, oracle, label="invocations", stateless=False)
+    # the bundled dylib backend with two real shared libraries exporting the same names, both loaded: a function invoked in
+    # one instance runs in that instance's library, including the calls the library makes to its own exported helpers
+    from checks import callscommon as cc
+    dbin, dlog = cc.build("dylib")
+    if dbin is None:
+        chk.fail("harness h_calls (dylib) does not compile against the current headers", {"log_tail": dlog[-3000:]}, found=False)
+    else:
+        core.differential(chk, ["dywho"], dbin, cc.oracle_c12, label="two libraries, same names (dylib)", impl_env=cc.env_for("dylib"))
     kinds = {}
     for o, a in zip(ops, res["impl"]):
         k = o.split()[0] + ":" + (a.split()[0] if a else "?") + ("" if not a.startswith("abort") or len(a.split()) < 2 else ":" + a.split()[1])
